@@ -57,6 +57,8 @@ Guard(st, e) ==
     LET r == st.wr[e.w] IN
     \* the same writer object is entered again after it has returned ("can be repeated")
     IF e.op = "reenter" THEN (IF r.ret /\ r.pc \in {"done", "failed"} THEN "" ELSE "reenter.pc")
+    \* (the process may also be killed between two uses of the writer object)
+    ELSE IF e.op = "crash" THEN (IF r.pc = "dead" THEN "crash.pc" ELSE "")
     ELSE IF r.ret THEN "returned"
     ELSE IF e.res = "fault" /\ st.faults = 0 THEN "fault.budget"
     ELSE CASE e.op = "mkdir" ->
